@@ -28,9 +28,13 @@ def mk_cfgs(rng):
         if rng.random() < 0.5:
             dec = ["IOU", {"q": list(rng.choice([(1, 2), (4, 5)]))}]
         groups = None
-        if rng.random() < 0.5:
+        r = rng.random()
+        if r < 0.4:
             groups = [{"name": "organ", "labels": [1], "merge": False, "single": rng.random() < 0.7},
-                      {"name": "lesions", "labels": [2, 3], "merge": False, "single": False}]
+                      {"name": "lesions", "labels": [2, 3], "merge": rng.random() < 0.3, "single": False}]
+        elif r < 0.6:
+            # one merge group that covers every label that occurs
+            groups = [{"name": "all", "labels": [1, 2, 3], "merge": True, "single": False}]
         gm = rng.sample(["DSC", "IOU"], rng.randint(0, 2))
         cfg = E.mk_cfg(it, metrics, matcher=E.naive("IOU", (1, 2)) if it != "MATCHED" else None, decision=dec)
         cfgs.append((cfg, groups, gm, rng.random() < 0.3))
@@ -83,6 +87,14 @@ def one_history(ctx, src):
             kind = rng.choice(["evaluate", "evaluate", "evaluate", "aggregator", "keys", "save", "other-evaluator"])
             if kind == "evaluate":
                 pred, ref = gen.pair(rng, hi=6, max_obj=3, allow_empty=True)
+                if cfg["input"] == "SEMANTIC" and rng.random() < 0.6:
+                    # diagonal-only contacts, dimensionality alternating between calls on the same evaluator
+                    nd = rng.choice([2, 3])
+                    ref = np.zeros((4,) * nd, np.uint8)
+                    for k2 in range(rng.randint(2, 4)):
+                        ref[(k2,) * nd] = 1
+                    pred = ref.copy()
+                    pred[(0,) * nd] = 0
                 if groups:
                     pred = np.where(pred > 3, 3, pred).astype(np.uint8)
                     ref = np.where(ref > 3, 3, ref).astype(np.uint8)
